@@ -29,6 +29,7 @@ EVD = {"ev": "", "id": 0, "caught": False, "cc": False, "exc": "", "t": 0}
 # ---------------------------------------------------------------------------------------------------------------
 # programs: AST = list of statements
 #   ("sleep", d) ("mark", k) ("cancel", scope_id) ("resched", scope_id, d) ("scope", id, kind, d, body) ("shield", body)
+#   ("cyield",) = backend.cancel_shielded_coro_yield(): a bare checkpoint run with cancellation muted, i.e. shield{sleep(0)}
 
 
 def flatten(ast: list[Any]) -> list[dict[str, Any]]:
@@ -55,6 +56,10 @@ def flatten(ast: list[Any]) -> list[dict[str, Any]]:
                 ins("shin")
                 go(st[1])
                 ins("shout")
+            elif st[0] == "cyield":
+                ins("shin")
+                ins("sleep", d=0)
+                ins("shout")
 
     go(ast)
     return out
@@ -68,7 +73,9 @@ def gen_program(rng: random.Random, max_depth: int = 3) -> list[Any]:
         out: list[Any] = []
         for _ in range(rng.randint(1, 3)):
             r = rng.random()
-            if r < 0.30:
+            if r < 0.05 and not in_shield:
+                out.append(("cyield",))
+            elif r < 0.30:
                 out.append(("sleep", rng.choice([0, 1, 1, 2, 3, 5])))
             elif r < 0.40:
                 out.append(("mark", next(marks)))
@@ -131,6 +138,10 @@ async def execute(ast: list[Any], ext: int) -> list[dict[str, Any]]:
                 log("shield_in")
                 await backend.ignore_cancellation(run_block(st[1]))
                 log("shield_out")
+            elif st[0] == "cyield":
+                log("shield_in")
+                await backend.cancel_shielded_coro_yield()
+                log("shield_out")
             elif st[0] == "scope":
                 _, sid, kind, d, body = st
                 if kind == "move_on":
@@ -184,6 +195,8 @@ def ast_str(ast: list[Any]) -> str:
                 parts.append(f"shield{{{go(st[1])}}}")
             elif st[0] == "resched":
                 parts.append(f"resched#{st[1]}({'inf' if st[2] >= INF else st[2]})")
+            elif st[0] == "cyield":
+                parts.append("cancel_shielded_yield")
             else:
                 parts.append(f"{st[0]}({st[1]})")
         return "; ".join(parts)
@@ -197,7 +210,11 @@ def shape(ast: list[Any]) -> set[str]:
 
     def go(block: list[Any], in_shield: bool, in_scope: bool) -> None:
         for st in block:
-            if st[0] == "shield":
+            if st[0] == "cyield":
+                feats.add("shield")
+                if in_scope:
+                    feats.add("shield_in_scope")
+            elif st[0] == "shield":
                 feats.add("shield")
                 if in_scope:
                     feats.add("shield_in_scope")
@@ -239,10 +256,36 @@ def _small_programs() -> list[tuple[list[Any], int]]:
     return progs
 
 
+def _nested_programs() -> list[tuple[list[Any], int]]:
+    """Three nested scopes (outer A, middle C never cancelled by itself, inner B) where B's cancellation is absorbed by a shielded
+    section while A gets cancelled (by the shielded code, by its own deadline or from outside): when the shield ends, every
+    checkpoint up to the end of A has to be abandoned."""
+    progs: list[tuple[list[Any], int]] = []
+    shields: list[list[Any]] = [
+        [("cyield",)],
+        [("shield", [("sleep", 0), ("sleep", 0)])],
+        [("shield", [("sleep", 0), ("cancel", 1), ("sleep", 0)])],
+        [("shield", [("cancel", 1), ("sleep", 0)])],
+        [("shield", [("sleep", 1)])],
+        [("cancel", 1), ("cyield",)],
+    ]
+    for sh in shields:
+        for inner_kind, inner_d, pre in (("open", INF, [("cancel", 3)]), ("move_on", 0, []), ("move_on", 1, [("sleep", 1)])):
+            for outer_kind, outer_d in (("open", INF), ("move_on", 0), ("move_on", 1), ("timeout", 1)):
+                for middle in (True, False):
+                    inner = [("scope", 3, inner_kind, inner_d, pre + sh), ("sleep", 2), ("mark", 1)]
+                    mid = [("scope", 2, "open", INF, inner), ("sleep", 1), ("mark", 2)] if middle else inner + [("sleep", 1), ("mark", 2)]
+                    ast = [("scope", 1, outer_kind, outer_d, mid), ("sleep", 0), ("mark", 9)]
+                    progs.append((ast, INF))
+    return progs
+
+
 def _model(chk: Check, quick: bool) -> bool:
     progs = _small_programs()
     if quick:
-        progs = progs[::2]
+        progs = progs[::2] + _nested_programs()[::6]
+    else:
+        progs = progs + _nested_programs()
     with tempfile.TemporaryDirectory(prefix="vf_c13_") as d:
         recs = "{" + ", ".join(tlaval.to_tla({"prog": tuple(flatten(a)), "ext": e}) for a, e in progs) + "}"
         mod = tlc.write_mc_module(d, "MC_CancelScope", "CancelScope", {"MCPrograms": recs})
@@ -266,16 +309,16 @@ def run(chk: Check) -> None:
     quick = chk.tier == "quick"
     rng = random.Random(chk.seed)
     chk.rule = (
-        "programs = the systematic small family (model checking) + seeded random ASTs up to depth 3 (1-3 statements per block: sleeps incl. bare "
+        "programs = the systematic small family (model checking) + a systematic family of three nested scopes whose inner cancellation is absorbed by a shield while the outer one is cancelled + seeded random ASTs up to depth 3-4 (1-3 statements per block: sleeps incl. bare "
         "checkpoints, marks, scope.cancel(), reschedule(), nested move_on_after/timeout/open scopes with delays 0-6 ticks, ignore_cancellation sections) x "
         "one external task.cancel() at tick 0-8 or none; distinct = distinct (program text, external-cancel tick)"
     )
     if not _model(chk, quick):
         return
     rec: list[dict[str, Any]] = []
-    cases: list[tuple[list[Any], int]] = list(_small_programs())
-    for _ in range(700 if quick else 12000):
-        ast = gen_program(rng)
+    cases: list[tuple[list[Any], int]] = list(_small_programs()) + _nested_programs()
+    for i in range(700 if quick else 12000):
+        ast = gen_program(rng, max_depth=3 if i % 3 else 4)
         cases.append((ast, rng.choice([INF, INF, 0, 1, 2, 3, 4, 5, 6, 8])))
     for ast, ext in cases:
         try:
